@@ -28,6 +28,9 @@ def required(tier):
     b['out-of-band-twice'] = 100
     b['frame-wider-than-2^16-channels'] = 10
     b['unseeded-frame-and-profiles'] = 100
+    b['decoy-frame-other-resolution-injected-first'] = 200
+    b['helper-injection-state'] = 200
+    b['noise-realisation-held-across-the-injections'] = 100
     b.update({f'bound:{k}': 5 for k in set(work_sig.BOUND_KINDS)})
     b.update({f'flags:{k}': 1 for k in range(16)})
     b.update({'sequence>=2': 20, 'outside-columns-exist': 50, 'cadence-injection-state': 50, 'derived-sibling-watched': 100, 'noise-estimate-vs-control-frame': 40})
@@ -166,6 +169,23 @@ def run_case(c, R):
         R.bucket('derived-sibling-watched')
         sib = fr.get_slice(0, max(1, g['fchans'] // 2))
         sib_before = sib.data.copy()
+    if c['_idx'] % 4 == 1:
+        # history: ANOTHER frame with the same first channel, orientation and shape but twice the channel width received the same
+        # signal descriptions over the same column ranges just before ("what an injection adds" does not depend on other frames)
+        R.bucket('decoy-frame-other-resolution-injected-first')
+        g2 = dict(g, df=2.0 * g['df'])
+        decoy = c01.make_frame(stg, g2)
+        dfs = np.array(decoy.fs, dtype=float)
+        for s in c['sigs']:
+            lo_, hi_ = rsig.bounding_columns(np.array(fr.fs, dtype=float), fr.df, fr.fchans, s['brange'])
+            if hi_ <= lo_:
+                continue
+            br_ = None if s['brange'] is None else [float(dfs[0] + (lo_ - 0.2) * decoy.df), float(dfs[0] + (hi_ - 0.2) * decoy.df)]
+            ref_d = rsig.SignalRef(stg, s['spec'], (dfs[0] + dfs[-1]) / 2, max(decoy.df * decoy.fchans, decoy.df))
+            try:
+                c01.call_add_signal(decoy, stg, s['spec'], s['opts'], br_, ref_d, lo_, hi_)
+            except Exception:                       # noqa  (array-valued specs are sized for the case's own frame; the decoy is not judged)
+                R.count('decoy_injections_skipped')
     for q, s in enumerate(c['sigs']):
         R.bucket('bound:' + s['bound_kind'])
         o = s['opts']
@@ -221,6 +241,27 @@ def run_case(c, R):
     # an array that was returned belongs to the caller from then on: later injections into the same frame leave it alone
     for j_, (arr_, cp_) in enumerate(kept_returns):
         R.check(np.array_equal(arr_, cp_), 'returned-array-changed-by-a-later-injection', call=j_, calls=len(kept_returns))
+    # the constant-signal helper is an injection like any other: data += returned array, everything else as it was
+    if c['_idx'] % 3 == 1 and g['fchans'] >= 8:
+        R.bucket('helper-injection-state')
+        hf_ = make_prior(stg, g, c['prior'], c['sub'])          # a frame of its own: the case's frame is judged further below
+        if 'drift_rate' in hf_.metadata:
+            R.bucket('helper-injection-state:drift-rate-already-annotated')
+        hb_ = hf_.data.copy()
+        hold_ = state_digest(hf_)
+        with common.quiet():
+            hret_ = hf_.add_constant_signal(f_start=hf_.get_frequency(g['fchans'] // 2), level=3.0, width=3 * hf_.df,
+                                           drift_rate=(0.4 if c['_idx'] % 2 else -0.4) * hf_.unit_drift_rate,
+                                           f_profile_type=['gaussian', 'box', 'sinc2', 'lorentzian'][c['_idx'] % 4])
+        hnew_ = state_digest(hf_)
+        for k in hold_:
+            R.check(bool(hold_[k] == hnew_[k]), 'state-changed:' + k + ':constant-signal-helper')
+        ha_ = hf_.data.astype(np.float64)
+        hexp_ = hb_.astype(np.float64) + hret_
+        htol_ = np.spacing(np.maximum(np.abs(ha_), np.abs(hb_)).astype(hf_.data.dtype)).astype(np.float64)
+        R.check(bool(np.all(np.abs(ha_ - hexp_) <= htol_)), 'delta-differs-from-returned-signal:constant-signal-helper',
+                maxerr=float(np.max(np.abs(ha_ - hexp_))))
+        R.check(not np.shares_memory(hret_, hf_.data), 'return-aliases-frame-data:constant-signal-helper')
     # two injections that miss the band altogether, the caller writing into the first result in between
     if c['_idx'] % 3 == 0:
         R.bucket('out-of-band-twice')
